@@ -18,7 +18,10 @@ read_question, Err of peek_rr x2, OPT/TSIG in answer/authority, second OPT, Err 
 last, FormErr of ReadTsigRr::try_from, octets after the last record, QUERY without question) each directly control a
 set_rcode(FORMERR) call;
 (c) scan order is message order: mark < answer+authority loop < additional loop < at_eom < rewind in dominance order,
-and the loop bounds derive from ANCOUNT+NSCOUNT and ARCOUNT.
+and the loop bounds derive from ANCOUNT+NSCOUNT and ARCOUNT;
+(d) FORMERR is not pre-empted: in the OPT arm the duplicate-OPT test is decided before set_edns is called (set_edns fails
+with AlreadyEdns on a second OPT and that failure is answered SERVFAIL), and no non-FORMERR RCODE is set in the scan before
+the record's own FORMERR tests.
 Not decided: which of two simultaneous errors wins for arbitrary octets (value-level).
 """
 ASSUMPTIONS = [
@@ -128,6 +131,29 @@ def check(R, F):
     R.require(found, 'formerr-arm', 'server::validate_opt|opt-owner-not-root', vo.where(),
               'validate_opt yields ExtendedRcode::FORMERR exactly under !owner.is_root()',
               'validate_opt no longer maps a non-root OPT owner to ExtendedRcode::FORMERR')
+
+    # ---- (d) the duplicate-OPT decision precedes the step that fails on a duplicate
+    second = has(r'^var:bool not in \[0\]$', OPT_EQ, HMWC)
+    se = paths.call_blocks(hm, lambda n: n.endswith("Writer::<'a>::set_edns"))
+    ok = len(second) == 1 and len(se) == 1
+    detail = 'expected one duplicate-OPT FORMERR site and one set_edns call, found %d and %d' % (len(second), len(se))
+    if ok:
+        fb = second[0][1]
+        tests = [p_ for (p_, s_) in hm.control_deps().get(fb, ()) if re.match(r'^var:bool not in \[0\]$', paths.explain_edge(hm, p_, s_) or '')]
+        ok = bool(tests) and all(hm.dominates(p_, se[0]) for p_ in tests)
+        detail = 'set_edns (which fails on a second OPT, answered SERVFAIL) is reachable before the duplicate-OPT test: a request with two OPT records gets SERVFAIL instead of FORMERR'
+    R.require(ok, 'formerr-first', HMWC + '|second-opt-before-set_edns', hm.where(se[0]) if se else hm.where(), 'the duplicate-OPT test dominates set_edns', detail)
+    # no other RCODE is set inside the two scan loops before a FORMERR test of the same arm: every non-FORMERR
+    # set_rcode site in the scan must be dominated by the arm's first FORMERR decision or lie after all of them
+    others = [(b, rcode_arg_value(hm, t)) for b, t in hm.calls() if is_set_rcode(t) and rcode_arg_value(hm, t) != FORMERR]
+    for b, code in others:
+        g = paths.dom_guards(hm, b)
+        if not any(re.search(OPT_EQ, x) for x in g):
+            continue
+        late = [fb for fn_, fb, dg, ag in formerr_guards if fn_.gpath == HMWC and any(re.search(OPT_EQ, x) for x in ag) and any(re.match(r'^var:bool', x) for x in dg) and hm.find_path(b, lambda x, fb=fb: x == fb) and not hm.find_path(fb, lambda x: x == b)]
+        R.require(not late, 'formerr-first', HMWC + '|rcode-%s-in-opt-arm' % code, hm.where(b), 'RCODE %s in the OPT arm is set only after the duplicate-OPT decision' % code,
+                  'RCODE %s is set (and returned) in the OPT arm before the duplicate-OPT FORMERR test was reached' % code)
+    R.floor('formerr-first', 2)
 
     # ---- (c) scan order is message order
     def first_call(pred):
